@@ -1,5 +1,7 @@
 import Amgcl.Model.RelaxIlu
+import Amgcl.Model.RelaxIluk
 import Amgcl.Proofs.RelaxIlu
+import Amgcl.Proofs.KernelsCommon
 import Mathlib.Algebra.BigOperators.Intervals
 import Mathlib.Data.List.GetD
 import Mathlib.Tactic.LinearCombination
@@ -271,6 +273,755 @@ theorem iluElim_spec (U : Array (Row K)) (D : Vec K) (i : Nat) (work : Array (Op
         rw [hd j (by omega), hle j (by omega), hw1, getD_setIfInBounds_ne _ _ _ _ _ (by omega)]
 
 end elim
+
+/-! ### 4. list lemmas for the finished row -/
+section lists
+variable {K : Type} [Field K] [DecidableEq K]
+
+/-- dropping exact zeros (and the columns outside `p`) does not change the denoted row on the columns in `p` -/
+theorem rowGet_filter (p : Nat → Bool) (r : Row K) (c : Nat) :
+    rowGet (r.filter (fun cv => p cv.1 && !(decide (cv.2 = 0)))) c = if p c = true then rowGet r c else 0 := by
+  induction r with
+  | nil => simp
+  | cons cv t ih =>
+    rw [List.filter_cons]
+    by_cases hk : (p cv.1 && !(decide (cv.2 = 0))) = true
+    · rw [if_pos hk, rowGet_cons, rowGet_cons, ih]
+      have hp : p cv.1 = true := by simp at hk; exact hk.1
+      by_cases hc : cv.1 = c
+      · rw [if_pos hc, if_pos hc]; rw [hc] at hp; simp [hp]
+      · rw [if_neg hc, if_neg hc]
+    · rw [if_neg hk, ih, rowGet_cons]
+      by_cases hc : cv.1 = c
+      · rw [if_pos hc]
+        by_cases hp : p c = true
+        · have hz : cv.2 = 0 := by
+            rw [← hc] at hp
+            simp [hp] at hk; exact hk
+          rw [if_pos hp, if_pos hp, hz]; ring
+        · rw [if_neg hp, if_neg hp]
+      · rw [if_neg hc]
+
+theorem rowGet_zip_not_mem (cs : List Nat) (ws : List K) (c : Nat) (h : c ∉ cs) : rowGet (cs.zip ws) c = 0 := by
+  apply rowGet_zero_of_forall_ne
+  intro cv hcv e
+  apply h
+  rw [← e]
+  exact (List.of_mem_zip hcv).1
+
+theorem rowGet_zip (cs : List Nat) (ws : List K) (hlen : cs.length = ws.length) (hnd : cs.Nodup) (s : Nat)
+    (hs : s < cs.length) : rowGet (cs.zip ws) (cs.getD s 0) = ws.getD s 0 := by
+  induction cs generalizing ws s with
+  | nil => simp at hs
+  | cons c t ih =>
+    cases ws with
+    | nil => simp at hlen
+    | cons w wt =>
+      rw [List.nodup_cons] at hnd
+      rw [List.zip_cons_cons, rowGet_cons]
+      cases s with
+      | zero => simp [rowGet_zip_not_mem t wt c hnd.1]
+      | succ s' =>
+        have hs' : s' < t.length := by simpa using hs
+        have hne : c ≠ t.getD s' 0 := by
+          intro e; apply hnd.1; rw [e, List.getD_eq_getElem _ _ hs']; exact List.getElem_mem hs'
+        simp only [List.getD_cons_succ]
+        rw [if_neg hne]
+        exact ih wt (by simpa using hlen) hnd.2 s' hs'
+
+/-- a row product against an arbitrary column function is the sum over the denoted row -/
+theorem listSum_eq_sum (r : Row K) (g : Nat → K) (m : Nat) (h : ∀ cv ∈ r, cv.1 < m) :
+    (r.map (fun cv => cv.2 * g cv.1)).sum = ∑ k ∈ range m, rowGet r k * g k := by
+  induction r with
+  | nil => simp
+  | cons cv t ih =>
+    have hcv : cv.1 < m := h cv List.mem_cons_self
+    have ht : ∀ c ∈ t, c.1 < m := fun c hc => h c (List.mem_cons_of_mem _ hc)
+    simp only [List.map_cons, List.sum_cons, rowGet_cons]
+    rw [ih ht]
+    have : ∑ j ∈ range m, (if cv.1 = j then cv.2 + rowGet t j else rowGet t j) * g j
+        = ∑ j ∈ range m, ((if cv.1 = j then cv.2 * g j else 0) + rowGet t j * g j) := by
+      apply sum_congr rfl; intro j _; split <;> ring
+    rw [this, sum_add_distrib, sum_ite_eq]
+    simp [hcv]
+
+/-- the sum over a filtered list as a sum over positions -/
+theorem filter_map_sum {α : Type} (d : α) (L : List α) (P : α → Bool) (f : α → K) :
+    ((L.filter P).map f).sum = ∑ s ∈ range L.length, if P (L.getD s d) = true then f (L.getD s d) else 0 := by
+  induction L with
+  | nil => simp
+  | cons a t ih =>
+    rw [List.length_cons, sum_range_succ', List.filter_cons]
+    simp only [List.getD_cons_succ, List.getD_cons_zero]
+    by_cases hp : P a = true
+    · rw [if_pos hp, if_pos hp, List.map_cons, List.sum_cons, ih]; ring
+    · rw [if_neg hp, if_neg hp, ih]; ring
+
+theorem sum_range_ite_lt (f : Nat → K) (q m : Nat) (h : q ≤ m) :
+    ∑ s ∈ range m, (if s < q then f s else 0) = ∑ s ∈ range q, f s := by
+  induction m with
+  | zero => have : q = 0 := by omega
+            subst this; simp
+  | succ k ih =>
+    rcases Nat.lt_or_ge q (k + 1) with h1 | h1
+    · rw [sum_range_succ, ih (by omega), if_neg (by omega)]; ring
+    · have : q = k + 1 := by omega
+      subst this
+      apply sum_congr rfl
+      intro s hs; rw [if_pos (mem_range.mp hs)]
+
+theorem getD_zip (cs : List Nat) (ws : List K) (hlen : cs.length = ws.length) (s : Nat) (hs : s < cs.length) :
+    (cs.zip ws).getD s (0, 0) = (cs.getD s 0, ws.getD s 0) := by
+  rw [List.getD_eq_getElem _ _ (by simp [← hlen]; exact hs), List.getElem_zip,
+    List.getD_eq_getElem _ _ hs, List.getD_eq_getElem _ _ (by omega)]
+
+end lists
+
+/-! ### 5. the finished row satisfies the row equations -/
+section row
+variable {K : Type} [Field K] [DecidableEq K]
+
+theorem toList_getD (w : Array K) (s : Nat) : w.toList.getD s 0 = w.getD s 0 := by
+  rw [List.getD_eq_getElem?_getD, Array.getD_eq_getD_getElem?, Array.getElem?_toList]
+
+theorem strictCols_mono (r : Row K) (h : K2.StrictCols r) (p p' : Nat) (hpp : p < p') (hp' : p' < r.length) :
+    (r.map (·.1)).getD p 0 < (r.map (·.1)).getD p' 0 := by
+  unfold K2.StrictCols at h
+  rw [List.pairwise_iff_getElem] at h
+  have := h p p' (by omega) hp' hpp
+  rw [List.getD_eq_getElem _ _ (by simp; omega), List.getD_eq_getElem _ _ (by simpa using hp')]
+  simpa using this
+
+/-- Row `i` of the factorisation: with the finished rows `U[k]` (strictly upper) and non-zero stored pivots `D[c]`
+(`c < i`), the new rows `l`, `u` and the new inverted pivot `d` satisfy, for every stored entry `(c, v)` of row `i`
+of `A`, the equation of position `(i, c)` of `(I+L)(D⁻¹+U) = A`. -/
+theorem iluRow_spec (n : Nat) (U : Array (Row K)) (D : Vec K) (i : Nat) (r : Row K)
+    (hsorted : K2.StrictCols r) (hlt : ∀ cv ∈ r, cv.1 < n)
+    (hU : ∀ k, ∀ cv ∈ U.getD k [], k < cv.1) (hD : ∀ c, c < i → D.getD c 0 ≠ 0)
+    (l u : Row K) (d : K) (h : iluRow n U D i r = .ok (l, d, u)) :
+    (∀ cv ∈ l, cv.1 < i) ∧ (∀ cv ∈ u, i < cv.1 ∧ cv.1 < n) ∧ d ≠ 0 ∧
+    ∀ cv ∈ r, (if cv.1 = i then 1 / d else 0) + rowGet u cv.1 + rowGet l cv.1 * (1 / D.getD cv.1 0)
+        + ∑ k ∈ range i, rowGet l k * ugetA U k cv.1 = cv.2 := by
+  have hnd : (r.map (·.1)).Nodup := hsorted.nodup
+  have hw : WorkOK (iluWork n r) (r.map (·.1)) := iluWork_ok n r hnd hlt
+  have hm : (r.map (·.1)).length = r.length := by simp
+  have hmono : ∀ p p', p < p' → p' < (r.map (·.1)).length →
+      (r.map (·.1)).getD p 0 < (r.map (·.1)).getD p' 0 :=
+    fun p p' h1 h2 => strictCols_mono r hsorted p p' h1 (by omega)
+  unfold iluRow at h
+  simp only [] at h
+  cases he : iluElim U D i (iluWork n r) (r.map (·.1)) (r.map (·.2)).toArray with
+  | precondition => rw [he] at h; exact absurd h (by simp)
+  | undefinedInput => rw [he] at h; exact absurd h (by simp)
+  | ok w =>
+    rw [he] at h
+    simp only [] at h
+    have hs0 : (r.map (·.2)).toArray.size = (r.map (·.1)).length := by simp
+    have he' : iluElim U D i (iluWork n r) ((r.map (·.1)).drop 0) (r.map (·.2)).toArray = .ok w := by
+      simpa using he
+    obtain ⟨q, _, hq2, hq3, hq4, ha, hb, hc, _⟩ :=
+      iluElim_spec U D i (iluWork n r) (r.map (·.1)) hw hmono hU 0 _ w hs0 he'
+    have hwq : (iluWork n r).getD i none = some q := by rw [← hq3]; exact hw.of_pos q hq2
+    rw [hwq] at h
+    simp only [] at h
+    injection h with h
+    have hl : l = ((r.map (·.1)).zip w.toList).filter
+        (fun cv => decide (cv.1 < i) && !(decide (cv.2 = 0))) := (congrArg Prod.fst h).symm
+    have hd : d = w.getD q 0 := (congrArg (fun t => t.2.1) h).symm
+    have hu : u = ((r.map (·.1)).zip w.toList).filter
+        (fun cv => decide (i < cv.1) && !(decide (cv.2 = 0))) := (congrArg (fun t => t.2.2) h).symm
+    have hlen : (r.map (·.1)).length = w.toList.length := by simp [hq4]
+    -- the initial slots are the values of the row
+    have hw0 : ∀ s, s < r.length → (r.map (·.2)).toArray.getD s 0 = (r.map (·.2)).getD s 0 := by
+      intro s _; rw [← toList_getD]
+    -- columns left / right of the diagonal by position
+    have hcol_lt : ∀ s, s < r.length → ((r.map (·.1)).getD s 0 < i ↔ s < q) := by
+      intro s hs
+      constructor
+      · intro hlt'
+        by_contra hge
+        rcases Nat.lt_or_eq_of_le (Nat.le_of_not_lt hge) with h1 | h1
+        · have := hmono q s h1 (by omega); omega
+        · rw [← h1, hq3] at hlt'; omega
+      · intro hsq; have := hmono s q hsq hq2; omega
+    have hcol_gt : ∀ s, s < r.length → (i < (r.map (·.1)).getD s 0 ↔ q < s) := by
+      intro s hs
+      constructor
+      · intro hgt
+        by_contra hle
+        rcases Nat.lt_or_eq_of_le (Nat.le_of_not_lt hle) with h1 | h1
+        · have := hmono s q h1 hq2; omega
+        · rw [h1, hq3] at hgt; omega
+      · intro hqs; have := hmono q s hqs (by omega); omega
+    -- denoted entries of the new rows at a pattern column
+    have hgetl : ∀ s, s < r.length → rowGet l ((r.map (·.1)).getD s 0) = if s < q then w.getD s 0 else 0 := by
+      intro s hs
+      rw [hl, rowGet_filter (fun c => decide (c < i)), rowGet_zip _ _ hlen hnd s (by omega), toList_getD]
+      by_cases hsq : s < q
+      · rw [if_pos hsq, if_pos (by simpa using (hcol_lt s hs).2 hsq)]
+      · rw [if_neg hsq, if_neg (by simpa using fun h' => hsq ((hcol_lt s hs).1 h'))]
+    have hgetu : ∀ s, s < r.length → rowGet u ((r.map (·.1)).getD s 0) = if q < s then w.getD s 0 else 0 := by
+      intro s hs
+      rw [hu, rowGet_filter (fun c => decide (i < c)), rowGet_zip _ _ hlen hnd s (by omega), toList_getD]
+      by_cases hsq : q < s
+      · rw [if_pos hsq, if_pos (by simpa using (hcol_gt s hs).2 hsq)]
+      · rw [if_neg hsq, if_neg (by simpa using fun h' => hsq ((hcol_gt s hs).1 h'))]
+    have hlcols : ∀ cv ∈ l, cv.1 < i := by
+      intro cv hcv; rw [hl, List.mem_filter] at hcv
+      have := hcv.2
+      simp only [Bool.and_eq_true, decide_eq_true_eq] at this
+      exact this.1
+    have hucols : ∀ cv ∈ u, i < cv.1 ∧ cv.1 < n := by
+      intro cv hcv
+      rw [hu, List.mem_filter] at hcv
+      have h2 := hcv.2
+      simp only [Bool.and_eq_true, decide_eq_true_eq] at h2
+      refine ⟨h2.1, ?_⟩
+      have := (List.of_mem_zip hcv.1).1
+      obtain ⟨e, he1, he2⟩ := List.mem_map.mp this
+      rw [← he2]; exact hlt e he1
+    -- the elimination sum over the new `L` row, by positions
+    have hsum : ∀ g : Nat → K, ∑ k ∈ range i, rowGet l k * g k
+        = ∑ s ∈ range q, w.getD s 0 * g ((r.map (·.1)).getD s 0) := by
+      intro g
+      rw [← listSum_eq_sum l g i hlcols, hl, filter_map_sum ((0 : Nat), (0 : K))]
+      have hlz : ((r.map (·.1)).zip w.toList).length = r.length := by simp [← hlen]
+      rw [hlz, ← sum_range_ite_lt _ q r.length (by omega)]
+      apply sum_congr rfl
+      intro s hs
+      have hs' := mem_range.mp hs
+      rw [getD_zip _ _ hlen s (by omega), toList_getD]
+      simp only []
+      by_cases hsq : s < q
+      · rw [if_pos hsq]
+        by_cases hz : w.getD s 0 = 0
+        · rw [hz]; simp
+        · rw [if_pos]
+          simp only [Bool.and_eq_true, decide_eq_true_eq, Bool.not_eq_true', decide_eq_false_iff_not]
+          exact ⟨(hcol_lt s hs').2 hsq, hz⟩
+      · rw [if_neg hsq, if_neg]
+        simp only [Bool.and_eq_true, decide_eq_true_eq, not_and]
+        intro h'; exact absurd ((hcol_lt s hs').1 h') hsq
+    have hdne : d ≠ 0 := by
+      rw [hd, hb.2]; exact one_div_ne_zero hb.1
+    refine ⟨hlcols, hucols, hdne, ?_⟩
+    intro cv hcv
+    obtain ⟨s, hs, hrs⟩ := List.getElem_of_mem hcv
+    have hc1 : cv.1 = (r.map (·.1)).getD s 0 := by
+      rw [List.getD_eq_getElem _ _ (by simpa using hs), List.getElem_map, hrs]
+    have hc2 : cv.2 = (r.map (·.2)).toArray.getD s 0 := by
+      rw [hw0 s hs, List.getD_eq_getElem _ _ (by simpa using hs), List.getElem_map, hrs]
+    rw [hsum, hc1, hgetl s hs, hgetu s hs, hc2]
+    rcases Nat.lt_trichotomy s q with hsq | hsq | hsq
+    · -- a column left of the diagonal
+      obtain ⟨hci, heq⟩ := ha s (Nat.zero_le _) hsq
+      have hne : (r.map (·.1)).getD s 0 ≠ i := by omega
+      have hDne := hD _ hci
+      rw [if_neg hne, if_neg (by omega), if_pos hsq]
+      have hsplit := Finset.sum_range_add_sum_Ico
+        (fun s' => w.getD s' 0 * ugetA U ((r.map (·.1)).getD s' 0) ((r.map (·.1)).getD s 0)) (Nat.le_of_lt hsq)
+      have hzero : ∑ s' ∈ Ico s q, w.getD s' 0 * ugetA U ((r.map (·.1)).getD s' 0) ((r.map (·.1)).getD s 0) = 0 := by
+        apply sum_eq_zero
+        intro s' hs'
+        rw [mem_Ico] at hs'
+        rw [ugetA_zero U hU _ _ ?_]; · ring
+        rcases Nat.lt_or_eq_of_le hs'.1 with h1 | h1
+        · exact Nat.le_of_lt (hmono s s' h1 (by omega))
+        · rw [h1]
+      rw [hzero, add_zero] at hsplit
+      rw [← hsplit, heq, Finset.range_eq_Ico]
+      field_simp
+      ring
+    · -- the diagonal
+      subst hsq
+      rw [if_pos hq3, if_neg (lt_irrefl _), hd, hb.2, hq3, Finset.range_eq_Ico]
+      have := hb.1
+      field_simp
+      ring
+    · -- a column right of the diagonal
+      have hne : (r.map (·.1)).getD s 0 ≠ i := by
+        have := (hcol_gt s hs).2 hsq; omega
+      rw [if_neg hne, if_pos hsq, if_neg (by omega), hc s hsq (by omega), Finset.range_eq_Ico]
+      ring
+
+end row
+
+section rowcols
+variable {K : Type} [Field K] [DecidableEq K]
+
+/-- the new rows live on the pattern of the row of `A` -/
+theorem iluRow_cols (n : Nat) (U : Array (Row K)) (D : Vec K) (i : Nat) (r : Row K) (l u : Row K) (d : K)
+    (h : iluRow n U D i r = .ok (l, d, u)) :
+    (∀ cv ∈ l, cv.1 ∈ r.map (·.1)) ∧ (∀ cv ∈ u, cv.1 ∈ r.map (·.1)) := by
+  unfold iluRow at h
+  simp only [] at h
+  cases he : iluElim U D i (iluWork n r) (r.map (·.1)) (r.map (·.2)).toArray with
+  | precondition => rw [he] at h; exact absurd h (by simp)
+  | undefinedInput => rw [he] at h; exact absurd h (by simp)
+  | ok w =>
+    rw [he] at h
+    simp only [] at h
+    injection h with h
+    have hl := (congrArg Prod.fst h).symm
+    have hu := (congrArg (fun t => t.2.2) h).symm
+    simp only [] at hl hu
+    constructor
+    · intro cv hcv; rw [hl, List.mem_filter] at hcv; exact (List.of_mem_zip hcv.1).1
+    · intro cv hcv; rw [hu, List.mem_filter] at hcv; exact (List.of_mem_zip hcv.1).1
+
+/-- the elimination loop succeeds only if it meets the diagonal column -/
+theorem iluElim_diag (U : Array (Row K)) (D : Vec K) (i : Nat) (work : Array (Option Nat)) (cols : List Nat)
+    (w w' : Array K) (h : iluElim U D i work cols w = .ok w') : i ∈ cols := by
+  induction cols generalizing w with
+  | nil => simp [iluElim] at h
+  | cons c rest ih =>
+    unfold iluElim at h
+    by_cases hic : i ≤ c
+    · rw [if_pos hic] at h
+      by_cases hne : c ≠ i
+      · rw [if_pos hne] at h; exact absurd h (by simp)
+      · have : c = i := not_not.mp hne
+        rw [this]; exact List.mem_cons_self
+    · rw [if_neg hic] at h
+      cases hw : work.getD c none with
+      | none => rw [hw] at h; exact absurd h (by simp)
+      | some p => rw [hw] at h; exact List.mem_cons_of_mem _ (ih _ h)
+
+theorem iluRow_diag (n : Nat) (U : Array (Row K)) (D : Vec K) (i : Nat) (r : Row K) (ldu : Row K × K × Row K)
+    (h : iluRow n U D i r = .ok ldu) : i ∈ r.map (·.1) := by
+  unfold iluRow at h
+  simp only [] at h
+  cases he : iluElim U D i (iluWork n r) (r.map (·.1)) (r.map (·.2)).toArray with
+  | precondition => rw [he] at h; exact absurd h (by simp)
+  | undefinedInput => rw [he] at h; exact absurd h (by simp)
+  | ok w => exact iluElim_diag _ _ _ _ _ _ _ he
+
+end rowcols
+
+/-! ### 6. the row loop -/
+section loop
+variable {K : Type} [Field K] [DecidableEq K]
+
+theorem getD_push_lt {α : Type} (a : Array α) (x d : α) (k : Nat) (h : k < a.size) :
+    (a.push x).getD k d = a.getD k d := by
+  unfold Array.getD
+  have h' : k < (a.push x).size := by simp; omega
+  rw [dif_pos h', dif_pos h]
+  exact Array.getElem_push_lt h
+
+theorem getD_push_eq {α : Type} (a : Array α) (x d : α) : (a.push x).getD a.size d = x := by
+  unfold Array.getD
+  simp
+
+/-- the invariant of the row loop after `i` rows -/
+structure IluInv (A : CRS K) (F : IluFactors K) (i : Nat) : Prop where
+  sizeL : F.L.rows.size = i
+  sizeU : F.U.rows.size = i
+  sizeD : F.D.size = i
+  lower : ∀ k, k < i → ∀ cv ∈ F.L.rows.getD k [], cv.1 < k
+  upper : ∀ k, k < i → ∀ cv ∈ F.U.rows.getD k [], k < cv.1 ∧ cv.1 < A.nrows
+  pivot : ∀ k, k < i → F.D.getD k 0 ≠ 0
+  diag : ∀ k, k < i → k ∈ (A.row k).map (·.1)
+  subL : ∀ k, k < i → ∀ cv ∈ F.L.rows.getD k [], cv.1 ∈ (A.row k).map (·.1)
+  subU : ∀ k, k < i → ∀ cv ∈ F.U.rows.getD k [], cv.1 ∈ (A.row k).map (·.1)
+  rowEq : ∀ k, k < i → ∀ cv ∈ A.row k,
+    (if cv.1 = k then 1 / F.D.getD k 0 else 0) + rowGet (F.U.rows.getD k []) cv.1
+      + (if cv.1 < k then rowGet (F.L.rows.getD k []) cv.1 * (1 / F.D.getD cv.1 0) else 0)
+      + ∑ k' ∈ range k, rowGet (F.L.rows.getD k []) k' * ugetA F.U.rows k' cv.1 = cv.2
+
+theorem ugetA_push_lt (U : Array (Row K)) (x : Row K) (k c : Nat) (h : k < U.size) :
+    ugetA (U.push x) k c = ugetA U k c := by
+  unfold ugetA; rw [getD_push_lt _ _ _ _ h]
+
+/-- one more row keeps the invariant -/
+theorem IluInv.step (A : CRS K) (hs : ∀ i, K2.StrictCols (A.row i)) (hwf : ∀ i, ∀ cv ∈ A.row i, cv.1 < A.nrows)
+    (F : IluFactors K) (i : Nat) (hinv : IluInv A F i) (l u : Row K) (d : K)
+    (h : iluRow A.nrows F.U.rows F.D i (A.row i) = .ok (l, d, u)) :
+    IluInv A { L := { F.L with rows := F.L.rows.push l }, U := { F.U with rows := F.U.rows.push u },
+               D := F.D.push d } (i + 1) := by
+  have hU : ∀ k, ∀ cv ∈ F.U.rows.getD k [], k < cv.1 := by
+    intro k cv hcv
+    by_cases hk : k < i
+    · exact (hinv.upper k hk cv hcv).1
+    · rw [getD_of_size_le _ _ _ (by rw [hinv.sizeU]; omega)] at hcv; cases hcv
+  obtain ⟨h1, h2, h3, h4⟩ := iluRow_spec A.nrows F.U.rows F.D i (A.row i) (hs i) (hwf i) hU hinv.pivot l u d h
+  have eL : ∀ k, k < i → (F.L.rows.push l).getD k [] = F.L.rows.getD k [] :=
+    fun k hk => getD_push_lt _ _ _ _ (by rw [hinv.sizeL]; exact hk)
+  have eU : ∀ k, k < i → (F.U.rows.push u).getD k [] = F.U.rows.getD k [] :=
+    fun k hk => getD_push_lt _ _ _ _ (by rw [hinv.sizeU]; exact hk)
+  have eD : ∀ k, k < i → (F.D.push d).getD k 0 = F.D.getD k 0 :=
+    fun k hk => getD_push_lt _ _ _ _ (by rw [hinv.sizeD]; exact hk)
+  have eLi : (F.L.rows.push l).getD i [] = l := by rw [← hinv.sizeL]; exact getD_push_eq _ _ _
+  have eUi : (F.U.rows.push u).getD i [] = u := by rw [← hinv.sizeU]; exact getD_push_eq _ _ _
+  have eDi : (F.D.push d).getD i 0 = d := by rw [← hinv.sizeD]; exact getD_push_eq _ _ _
+  have eug : ∀ k c, k < i → ugetA (F.U.rows.push u) k c = ugetA F.U.rows k c :=
+    fun k c hk => ugetA_push_lt _ _ _ _ (by rw [hinv.sizeU]; exact hk)
+  obtain ⟨c1, c2⟩ := iluRow_cols A.nrows F.U.rows F.D i (A.row i) l u d h
+  refine ⟨by simp [hinv.sizeL], by simp [hinv.sizeU], by simp [hinv.sizeD], ?_, ?_, ?_, ?_, ?_, ?_, ?_⟩
+  · intro k hk cv hcv
+    rcases Nat.lt_or_eq_of_le (Nat.le_of_lt_succ hk) with hk' | hk'
+    · simp only [] at hcv; rw [eL k hk'] at hcv; exact hinv.lower k hk' cv hcv
+    · subst hk'; simp only [] at hcv; rw [eLi] at hcv; exact h1 cv hcv
+  · intro k hk cv hcv
+    rcases Nat.lt_or_eq_of_le (Nat.le_of_lt_succ hk) with hk' | hk'
+    · simp only [] at hcv; rw [eU k hk'] at hcv; exact hinv.upper k hk' cv hcv
+    · subst hk'; simp only [] at hcv; rw [eUi] at hcv; exact h2 cv hcv
+  · intro k hk
+    rcases Nat.lt_or_eq_of_le (Nat.le_of_lt_succ hk) with hk' | hk'
+    · simp only []; rw [eD k hk']; exact hinv.pivot k hk'
+    · subst hk'; simp only []; rw [eDi]; exact h3
+  · intro k hk
+    rcases Nat.lt_or_eq_of_le (Nat.le_of_lt_succ hk) with hk' | hk'
+    · exact hinv.diag k hk'
+    · subst hk'; exact iluRow_diag _ _ _ _ _ _ h
+  · intro k hk cv hcv
+    rcases Nat.lt_or_eq_of_le (Nat.le_of_lt_succ hk) with hk' | hk'
+    · simp only [] at hcv; rw [eL k hk'] at hcv; exact hinv.subL k hk' cv hcv
+    · subst hk'; simp only [] at hcv; rw [eLi] at hcv; exact c1 cv hcv
+  · intro k hk cv hcv
+    rcases Nat.lt_or_eq_of_le (Nat.le_of_lt_succ hk) with hk' | hk'
+    · simp only [] at hcv; rw [eU k hk'] at hcv; exact hinv.subU k hk' cv hcv
+    · subst hk'; simp only [] at hcv; rw [eUi] at hcv; exact c2 cv hcv
+  · intro k hk cv hcv
+    simp only []
+    rcases Nat.lt_or_eq_of_le (Nat.le_of_lt_succ hk) with hk' | hk'
+    · rw [eD k hk', eU k hk', eL k hk']
+      have := hinv.rowEq k hk' cv hcv
+      rw [← this]
+      congr 1
+      · congr 1
+        by_cases hc : cv.1 < k
+        · rw [if_pos hc, if_pos hc, eD cv.1 (by omega)]
+        · rw [if_neg hc, if_neg hc]
+      · apply sum_congr rfl
+        intro k' hk''
+        rw [eug k' cv.1 (by have := mem_range.mp hk''; omega)]
+    · subst hk'
+      rw [eDi, eUi, eLi]
+      have := h4 cv hcv
+      rw [← this]
+      congr 1
+      · congr 1
+        by_cases hc : cv.1 < k
+        · rw [if_pos hc, eD cv.1 hc]
+        · rw [if_neg hc, rowGet_zero_of_forall_ne l cv.1 (fun e he heq => hc (heq ▸ h1 e he))]; ring
+      · apply sum_congr rfl
+        intro k' hk''
+        rw [eug k' cv.1 (mem_range.mp hk'')]
+
+theorem iluLoop_spec (A : CRS K) (hs : ∀ i, K2.StrictCols (A.row i)) (hwf : ∀ i, ∀ cv ∈ A.row i, cv.1 < A.nrows)
+    (len i : Nat) (F G : IluFactors K) (hinv : IluInv A F i)
+    (h : iluLoop A (List.range' i len) F = .ok G) : IluInv A G (i + len) ∧ G.L.ncols = F.L.ncols ∧ G.U.ncols = F.U.ncols := by
+  induction len generalizing i F with
+  | zero =>
+    simp only [List.range'_zero, iluLoop] at h
+    injection h with h; subst h; exact ⟨hinv, rfl, rfl⟩
+  | succ m ih =>
+    rw [List.range'_succ] at h
+    unfold iluLoop at h
+    cases hr : iluRow A.nrows F.U.rows F.D i (A.row i) with
+    | precondition => rw [hr] at h; exact absurd h (by simp)
+    | undefinedInput => rw [hr] at h; exact absurd h (by simp)
+    | ok ldu =>
+      obtain ⟨l, d, u⟩ := ldu
+      rw [hr] at h
+      simp only [] at h
+      have := ih (i + 1) _ (IluInv.step A hs hwf F i hinv l u d hr) h
+      refine ⟨by rw [show i + (m + 1) = i + 1 + m by omega]; exact this.1, this.2.1, this.2.2⟩
+
+theorem rowGet_of_mem_nodup (r : Row K) (hn : (r.map (·.1)).Nodup) (cv : Nat × K) (h : cv ∈ r) :
+    rowGet r cv.1 = cv.2 := by
+  induction r with
+  | nil => cases h
+  | cons a t ih =>
+    simp only [List.map_cons, List.nodup_cons] at hn
+    rw [rowGet_cons]
+    rcases List.mem_cons.mp h with he | ht
+    · rw [he, if_pos rfl, rowGet_zero_of_forall_ne t a.1 ?_]; · ring
+      intro e he' heq
+      exact hn.1 (heq ▸ List.mem_map.mpr ⟨e, he', rfl⟩)
+    · have hne : a.1 ≠ cv.1 := by
+        intro heq
+        exact hn.1 (heq ▸ List.mem_map.mpr ⟨cv, ht, rfl⟩)
+      rw [if_neg hne]; exact ih hn.2 ht
+
+/-- everything the constructor guarantees when it succeeds -/
+theorem ilu0Factor_inv (A : CRS K) (hA : A.WF) (hsq : A.ncols = A.nrows) (hs : A.sortedb = true)
+    (F : IluFactors K) (hF : ilu0Factor A = .ok F) :
+    IluInv A F A.nrows ∧ F.L.ncols = A.nrows ∧ F.U.ncols = A.nrows := by
+  have hs' := K2.sortedb_iff.mp hs
+  have hwf : ∀ i, ∀ cv ∈ A.row i, cv.1 < A.nrows := by
+    intro i cv hcv; rw [← hsq]; exact K2.row_col_lt hA i hcv
+  unfold ilu0Factor at hF
+  rw [List.range_eq_range'] at hF
+  have h0 : IluInv A ({ L := ⟨A.nrows, #[]⟩, U := ⟨A.nrows, #[]⟩, D := #[] } : IluFactors K) 0 :=
+    ⟨rfl, rfl, rfl, fun k hk => absurd hk (by omega), fun k hk => absurd hk (by omega),
+     fun k hk => absurd hk (by omega), fun k hk => absurd hk (by omega), fun k hk => absurd hk (by omega),
+     fun k hk => absurd hk (by omega), fun k hk => absurd hk (by omega)⟩
+  have := iluLoop_spec A hs' hwf A.nrows 0 _ F h0 hF
+  simpa using this
+
+end loop
+
+/-! ### 7. the theorem in the vocabulary of `lowEntry` / `upEntry` -/
+section final
+variable {K : Type} [Field K] [DecidableEq K]
+
+theorem sum_range_restrict (f : Nat → K) (i n : Nat) (h : i ≤ n) (hz : ∀ k, i ≤ k → k < n → f k = 0) :
+    ∑ k ∈ range n, f k = ∑ k ∈ range i, f k := by
+  rw [← Finset.sum_range_add_sum_Ico f h]
+  have : ∑ k ∈ Ico i n, f k = 0 := by
+    apply sum_eq_zero; intro k hk; rw [mem_Ico] at hk; exact hz k hk.1 hk.2
+  rw [this, add_zero]
+
+/-- the structural facts about the factors of a successful ILU(0) -/
+theorem ilu0Factor_wf (A : CRS K) (hA : A.WF) (hsq : A.ncols = A.nrows) (hs : A.sortedb = true)
+    (F : IluFactors K) (hF : ilu0Factor A = .ok F) :
+    strictLowerb F.L = true ∧ strictUpperb F.U = true ∧ F.L.WF ∧ F.U.WF ∧ F.L.nrows = A.nrows ∧ F.L.ncols = A.nrows
+    ∧ F.U.nrows = A.nrows ∧ F.U.ncols = A.nrows ∧ F.D.size = A.nrows ∧ ∀ i, i < A.nrows → F.D.getD i 0 ≠ 0 := by
+  obtain ⟨inv, hLc, hUc⟩ := ilu0Factor_inv A hA hsq hs F hF
+  have hLn : F.L.nrows = A.nrows := inv.sizeL
+  have hUn : F.U.nrows = A.nrows := inv.sizeU
+  refine ⟨?_, ?_, ?_, ?_, hLn, hLc, hUn, hUc, inv.sizeD, inv.pivot⟩
+  · unfold strictLowerb
+    rw [List.all_eq_true]; intro i hi
+    rw [List.all_eq_true]; intro cv hcv
+    have hi' : i < A.nrows := by rw [← hLn]; exact List.mem_range.mp hi
+    simpa using inv.lower i hi' cv hcv
+  · unfold strictUpperb
+    rw [List.all_eq_true]; intro i hi
+    rw [List.all_eq_true]; intro cv hcv
+    have hi' : i < A.nrows := by rw [← hUn]; exact List.mem_range.mp hi
+    simpa using (inv.upper i hi' cv hcv).1
+  · rw [K2.wf_iff_row]
+    intro i hi cv hcv
+    have hi' : i < A.nrows := by rw [← hLn]; exact hi
+    have := inv.lower i hi' cv hcv
+    rw [hLc]; omega
+  · rw [K2.wf_iff_row]
+    intro i hi cv hcv
+    have hi' : i < A.nrows := by rw [← hUn]; exact hi
+    rw [hUc]; exact (inv.upper i hi' cv hcv).2
+
+/-- **ILU(0) reproduces `A` on the pattern of `A`.** -/
+theorem ilu0_on_pattern_aux (A : CRS K) (hA : A.WF) (hsq : A.ncols = A.nrows) (hs : A.sortedb = true)
+    (F : IluFactors K) (hF : ilu0Factor A = .ok F) (i : Nat) (hi : i < A.nrows) (cv : Nat × K) (hcv : cv ∈ A.row i) :
+    ∑ k ∈ range A.nrows, lowEntry F i k * upEntry F k cv.1 = A.get i cv.1 := by
+  obtain ⟨inv, _, _⟩ := ilu0Factor_inv A hA hsq hs F hF
+  have hc : cv.1 < A.nrows := by rw [← hsq]; exact K2.row_col_lt hA i hcv
+  have hnd : ((A.row i).map (·.1)).Nodup := (K2.sortedb_iff.mp hs i).nodup
+  have hget : A.get i cv.1 = cv.2 := rowGet_of_mem_nodup _ hnd cv hcv
+  have hLz : ∀ k, i ≤ k → F.L.get i k = 0 := by
+    intro k hk
+    unfold CRS.get CRS.row
+    apply rowGet_zero_of_forall_ne
+    intro e he heq
+    have := inv.lower i hi e he
+    omega
+  have hUz : ∀ c, c ≤ i → F.U.get i c = 0 := by
+    intro c hc'
+    unfold CRS.get CRS.row
+    apply rowGet_zero_of_forall_ne
+    intro e he heq
+    have := (inv.upper i hi e he).1
+    omega
+  rw [hget, ← inv.rowEq i hi cv hcv]
+  -- expand the product of the two sums `(δ + L)(δ/D + U)`
+  have hexp : ∀ k ∈ range A.nrows, lowEntry F i k * upEntry F k cv.1
+      = (if i = k then upEntry F k cv.1 else 0)
+        + (if k = cv.1 then F.L.get i k * (1 / F.D.getD k 0) else 0)
+        + F.L.get i k * F.U.get k cv.1 := by
+    intro k _
+    unfold lowEntry upEntry
+    by_cases h1 : i = k
+    · by_cases h2 : k = cv.1
+      · simp only [if_pos h1, if_pos h2]; ring
+      · simp only [if_pos h1, if_neg h2]; ring
+    · by_cases h2 : k = cv.1
+      · simp only [if_neg h1, if_pos h2]; ring
+      · simp only [if_neg h1, if_neg h2]; ring
+  rw [sum_congr rfl hexp, sum_add_distrib, sum_add_distrib, sum_ite_eq, if_pos (mem_range.mpr hi),
+    sum_ite_eq', if_pos (mem_range.mpr hc)]
+  rw [sum_range_restrict (fun k => F.L.get i k * F.U.get k cv.1) i A.nrows (Nat.le_of_lt hi)
+    (fun k hk _ => by rw [hLz k hk]; ring)]
+  unfold upEntry
+  have e1 : (if i = cv.1 then 1 / F.D.getD i 0 else 0) = (if cv.1 = i then 1 / F.D.getD i 0 else 0) := by
+    by_cases h : i = cv.1
+    · rw [if_pos h, if_pos h.symm]
+    · rw [if_neg h, if_neg (fun e => h e.symm)]
+  have e2 : F.L.get i cv.1 * (1 / F.D.getD cv.1 0)
+      = (if cv.1 < i then rowGet (F.L.rows.getD i []) cv.1 * (1 / F.D.getD cv.1 0) else 0) := by
+    by_cases h : cv.1 < i
+    · rw [if_pos h]; rfl
+    · rw [if_neg h, hLz cv.1 (by omega)]; ring
+  rw [e1, e2]
+  rfl
+
+end final
+
+/-! ### 8. exactness when the pattern is closed under fill-in -/
+section exact
+variable {K : Type} [Field K] [DecidableEq K]
+
+theorem patOf_iff (A : CRS K) (i j : Nat) : patOf A i j = true ↔ j ∈ (A.row i).map (·.1) := by
+  unfold patOf
+  rw [List.any_eq_true]
+  constructor
+  · rintro ⟨cv, hcv, he⟩; exact List.mem_map.mpr ⟨cv, hcv, by simpa using he⟩
+  · intro h; obtain ⟨cv, hcv, he⟩ := List.mem_map.mp h; exact ⟨cv, hcv, by simpa using he⟩
+
+theorem noFill_spec (A : CRS K) (h : noFillb A = true) (i k j : Nat) (hi : i < A.nrows)
+    (hik : k ∈ (A.row i).map (·.1)) (hki : k < i) (hkj : j ∈ (A.row k).map (·.1)) (hkj' : k < j) :
+    j ∈ (A.row i).map (·.1) := by
+  unfold noFillb at h
+  rw [List.all_eq_true] at h
+  have h1 := h i (List.mem_range.mpr hi)
+  rw [List.all_eq_true] at h1
+  obtain ⟨ck, hck, hck'⟩ := List.mem_map.mp hik
+  have h2 := h1 ck hck
+  have hck'' : ck.1 = k := hck'
+  rw [hck''] at h2
+  simp only [hki, decide_true, Bool.not_true, Bool.false_or] at h2
+  rw [List.all_eq_true] at h2
+  obtain ⟨cj, hcj, hcj'⟩ := List.mem_map.mp hkj
+  have h3 := h2 cj hcj
+  have hcj'' : cj.1 = j := hcj'
+  rw [hcj''] at h3
+  simp only [hkj', decide_true, Bool.not_true, Bool.false_or] at h3
+  exact (patOf_iff A i j).mp h3
+
+/-- if the pattern of `A` is closed under fill-in, ILU(0) is the exact LU factorisation: `(I+L)(D⁻¹+U) = A` -/
+theorem ilu0_exact_aux (A : CRS K) (hA : A.WF) (hsq : A.ncols = A.nrows) (hs : A.sortedb = true)
+    (hnf : noFillb A = true) (F : IluFactors K) (hF : ilu0Factor A = .ok F) (i j : Nat) (hi : i < A.nrows)
+    (hj : j < A.nrows) :
+    ∑ k ∈ range A.nrows, lowEntry F i k * upEntry F k j = A.get i j := by
+  by_cases hp : j ∈ (A.row i).map (·.1)
+  · obtain ⟨cv, hcv, he⟩ := List.mem_map.mp hp
+    have he' : cv.1 = j := he
+    rw [← he']
+    exact ilu0_on_pattern_aux A hA hsq hs F hF i hi cv hcv
+  · obtain ⟨inv, _, _⟩ := ilu0Factor_inv A hA hsq hs F hF
+    have hA0 : A.get i j = 0 := by
+      unfold CRS.get
+      apply rowGet_zero_of_forall_ne
+      intro e he heq
+      exact hp (heq ▸ List.mem_map.mpr ⟨e, he, rfl⟩)
+    have hij : i ≠ j := fun e => hp (e ▸ inv.diag i hi)
+    have hLget : ∀ i' c, i' < A.nrows → c ∉ (A.row i').map (·.1) → F.L.get i' c = 0 := by
+      intro i' c hi' hc
+      unfold CRS.get CRS.row
+      apply rowGet_zero_of_forall_ne
+      intro e he heq
+      exact hc (heq ▸ inv.subL i' hi' e he)
+    have hUget : ∀ i' c, i' < A.nrows → c ∉ (A.row i').map (·.1) → F.U.get i' c = 0 := by
+      intro i' c hi' hc
+      unfold CRS.get CRS.row
+      apply rowGet_zero_of_forall_ne
+      intro e he heq
+      exact hc (heq ▸ inv.subU i' hi' e he)
+    have hLlow : ∀ k, i ≤ k → F.L.get i k = 0 := by
+      intro k hk
+      unfold CRS.get CRS.row
+      apply rowGet_zero_of_forall_ne
+      intro e he heq
+      have := inv.lower i hi e he; omega
+    have hUup : ∀ k c, k < A.nrows → c ≤ k → F.U.get k c = 0 := by
+      intro k c hk hc
+      unfold CRS.get CRS.row
+      apply rowGet_zero_of_forall_ne
+      intro e he heq
+      have := (inv.upper k hk e he).1; omega
+    rw [hA0]
+    apply sum_eq_zero
+    intro k hk
+    have hk' := mem_range.mp hk
+    unfold lowEntry upEntry
+    by_cases hik : i = k
+    · subst hik
+      rw [if_pos rfl, if_neg hij, hLlow i (le_refl _), hUget i j hi hp]; ring
+    · rw [if_neg hik]
+      by_cases hkj : k = j
+      · subst hkj
+        rw [hLget i k hi hp]; ring
+      · rw [if_neg hkj]
+        -- a product `L_ik U_kj` with `(i,j)` outside the pattern vanishes because the pattern has no fill
+        by_cases hl : k ∈ (A.row i).map (·.1) ∧ k < i
+        · by_cases hu : j ∈ (A.row k).map (·.1) ∧ k < j
+          · exact absurd (noFill_spec A hnf i k j hi hl.1 hl.2 hu.1 hu.2) hp
+          · have : F.U.get k j = 0 := by
+              by_cases h1 : j ∈ (A.row k).map (·.1)
+              · exact hUup k j hk' (Nat.le_of_not_lt (fun h2 => hu ⟨h1, h2⟩))
+              · exact hUget k j hk' h1
+            rw [this]; ring
+        · have : F.L.get i k = 0 := by
+            by_cases h1 : k ∈ (A.row i).map (·.1)
+            · exact hLlow k (Nat.le_of_not_lt (fun h2 => hl ⟨h1, h2⟩))
+            · exact hLget i k hi h1
+          rw [this]; ring
+
+end exact
+
+/-! ### 9. ILUP = ILU(0) of the padded matrix -/
+section pad
+variable {K : Type} [Field K] [DecidableEq K]
+
+theorem padPattern_row (pat : Nat → Nat → Bool) (A : CRS K) (i : Nat) (hi : i < A.nrows) :
+    (padPattern pat A).row i
+      = (List.range A.nrows).filterMap (fun j => if pat i j then some (j, A.get i j) else none) := by
+  unfold CRS.row padPattern
+  simp only []
+  rw [getD_ofFn_lt _ _ _ hi]
+
+theorem padPattern_nrows (pat : Nat → Nat → Bool) (A : CRS K) : (padPattern pat A).nrows = A.nrows := by
+  simp [padPattern, CRS.nrows]
+
+theorem padPattern_mem (pat : Nat → Nat → Bool) (A : CRS K) (i : Nat) (hi : i < A.nrows) (cv : Nat × K) :
+    cv ∈ (padPattern pat A).row i ↔ cv.1 < A.nrows ∧ pat i cv.1 = true ∧ cv.2 = A.get i cv.1 := by
+  rw [padPattern_row pat A i hi, List.mem_filterMap]
+  constructor
+  · rintro ⟨j, hj, he⟩
+    by_cases hp : pat i j = true
+    · rw [if_pos hp] at he
+      have := Option.some.inj he
+      rw [← this]
+      exact ⟨List.mem_range.mp hj, hp, rfl⟩
+    · rw [if_neg hp] at he; exact absurd he (by simp)
+  · rintro ⟨h1, h2, h3⟩
+    refine ⟨cv.1, List.mem_range.mpr h1, ?_⟩
+    rw [if_pos h2, ← h3]
+
+theorem padPattern_wf (pat : Nat → Nat → Bool) (A : CRS K) (hsq : A.ncols = A.nrows) : (padPattern pat A).WF := by
+  rw [K2.wf_iff_row]
+  intro i hi cv hcv
+  rw [padPattern_nrows] at hi
+  have := (padPattern_mem pat A i hi cv).mp hcv
+  show cv.1 < A.ncols
+  rw [hsq]; exact this.1
+
+theorem padPattern_sorted (pat : Nat → Nat → Bool) (A : CRS K) : (padPattern pat A).sortedb = true := by
+  rw [K2.sortedb_iff]
+  intro i
+  by_cases hi : i < A.nrows
+  · rw [padPattern_row pat A i hi]
+    unfold K2.StrictCols
+    apply List.Pairwise.filterMap _ _ List.pairwise_lt_range
+    intro a a' haa b hb b' hb'
+    by_cases h1 : pat i a = true
+    · by_cases h2 : pat i a' = true
+      · rw [if_pos h1] at hb; rw [if_pos h2] at hb'
+        rw [← Option.some.inj hb, ← Option.some.inj hb']; exact haa
+      · rw [if_neg h2] at hb'; exact absurd hb' (by simp)
+    · rw [if_neg h1] at hb; exact absurd hb (by simp)
+  · rw [K2.row_eq_nil_of_ge _ (by rw [padPattern_nrows]; omega)]; exact List.Pairwise.nil
+
+/-- the padded matrix denotes `A` on the padding pattern -/
+theorem padPattern_get (pat : Nat → Nat → Bool) (A : CRS K) (i j : Nat) (hi : i < A.nrows) (hj : j < A.nrows)
+    (hp : pat i j = true) : (padPattern pat A).get i j = A.get i j := by
+  have hmem : (j, A.get i j) ∈ (padPattern pat A).row i := (padPattern_mem pat A i hi _).mpr ⟨hj, hp, rfl⟩
+  have hnd := (K2.sortedb_iff.mp (padPattern_sorted pat A) i).nodup
+  exact rowGet_of_mem_nodup _ hnd _ hmem
+
+end pad
 
 end Relax
 end Amgcl
